@@ -122,6 +122,18 @@ def handle : Handler := fun op args =>
         let obj0 : NM := { p := [], y := [], psum := [], nfunc := 0 }
         let rs := nmSeqArgs rndD ftol (NMAX + 2) obj0 runs
         "ok " ++ " | ".intercalate ((rs.zip ms).map (fun rm => showN rm.1 (fun x => evalRPN rndD rm.2.2 x)))
+  | "c11.nmre" =>
+    -- c11.nmre <ftolOut> <start> <deltaOut> <ftolIn> <t0> <deltaIn> <prog over x ++ t>
+    withArgs (do let fo ← pRat; let st ← pRats; let d ← pRat; let fi ← pRat; let t0 ← pRats; let di ← pRat; let pr ← pProg
+                 pure (fo, st, d, fi, t0, di, pr)) args
+      fun (fo, st, d, fi, t0, di, pr) =>
+        let g : Pt → Rat := fun x => (evalRPN rndD pr x).getD 0
+        -- defined iff the inner run returns and every inner evaluation of the program is defined
+        let fdef : Pt → Option Rat := fun x =>
+          match nelderMeadDelta rndD (fun t => g (x ++ t)) fi t0 di (NMAX + 2) with
+          | some (.ok _ fmin _ _, tr) => if tr.all (fun e => (evalRPN rndD pr (x ++ e.1)).isSome) then some fmin else none
+          | _ => none
+        showN (nelderMeadNested rndD g fo st d fi t0 di (NMAX + 2)) fdef
   | "c11.rnd" => withArgs pRat args fun x => "ok " ++ showQ (rndD x)
   | _ => none
 
